@@ -201,6 +201,11 @@ def check_b64_decode_text(h, text):
         want = base64.b64decode(text, validate=True) if len(text) % 4 == 0 else None
     except (binascii.Error, ValueError):
         want = None
+    # base64.b64decode(validate=True) of this Python still accepts non-canonical texts with excess padding ('AAAA====' -> 3 bytes).
+    # Only the CANONICAL encoding of a value is "valid input" in the sense of the statement; everything else is hostile input,
+    # for which any clean outcome is fine (the size function may then advertise more than the decoder produces).
+    if want is not None and base64.b64encode(want) != bytes(text):
+        want = None
     reply = h.call("b64d", hx(text))
     if reply and reply[0] == "exc":
         assert want is None, "Decode threw on %r which base64.b64decode(validate=True) accepts" % text
